@@ -695,6 +695,32 @@ def check_size_bare_name(ctx):
     if len(fi.params) < 2:
         raise AnalysisError('Domain.size lost its attrs parameter')
     p = fi.params[1]
+    bad = bare_name_uses(fi, p)
+    ctx.ob('bare-name', fi, bad[0] if bad else fi.node, not bad,
+           'Domain.size is also given one attribute NAME (Domain.sort sorts by key=self.size): %s' % (
+               'the argument is only walked / searched where a string has been excluded or wrapped' if not bad else
+               '`%s` walks or searches the argument while it may still be a string - a membership test on a string is a substring test, so the size of '
+               'every attribute whose name is contained in the requested name is multiplied in' % U(bad[0])[:70]),
+           construct='uses of the argument of Domain.size')
+    # methods added to Domain later that take a clique / attribute collection: the library hands cliques around as tuples AND as bare names
+    # (a measurement's proj may be one attribute name), so the same discipline applies to them
+    from ..normalise import is_established
+    for q_, f_ in sorted(fi.module.funcs.items()):
+        if f_.cls is not None and f_.cls.name == 'Domain' and q_.count('.') == 1 and not is_established(DOM, q_) and len(f_.params) == 2 \
+                and f_.params[1] in ('attrs', 'attr', 'cols', 'clique', 'proj', 'cl', 'names'):
+            for n_ in ast.walk(f_.node):
+                for ch_ in ast.iter_child_nodes(n_):
+                    ch_._parent = n_
+            bad_ = bare_name_uses(f_, f_.params[1])
+            ctx.analysed(f_)
+            ctx.ob('bare-name', f_, bad_[0] if bad_ else f_.node, not bad_,
+                   'new method %s takes a clique, which the library also spells as ONE attribute name: %s' % (q_, 'a string is excluded or wrapped before the '
+                   'argument is walked' if not bad_ else '`%s` walks the argument while it may still be a string - its CHARACTERS are then taken for attribute names'
+                   % U(bad_[0])[:70]), construct='uses of the argument of ' + q_)
+
+
+def bare_name_uses(fi, p):
+    """uses of parameter p that walk / search it (iteration, membership, set(..), len(..)) on a path where it may still be a bare string"""
 
     def str_test(t):
         neg = False
@@ -731,12 +757,7 @@ def check_size_bare_name(ctx):
         rebinds = [a_ for a_ in ast.walk(fi.node) if isinstance(a_, ast.Assign) and any(U(t_) == p for t_ in a_.targets) and a_.lineno < x.lineno]
         if not excluded and not rebinds:
             bad.append(par)
-    ctx.ob('bare-name', fi, bad[0] if bad else fi.node, not bad,
-           'Domain.size is also given one attribute NAME (Domain.sort sorts by key=self.size): %s' % (
-               'the argument is only walked / searched where a string has been excluded or wrapped' if not bad else
-               '`%s` walks or searches the argument while it may still be a string - a membership test on a string is a substring test, so the size of '
-               'every attribute whose name is contained in the requested name is multiplied in' % U(bad[0])[:70]),
-           construct='uses of the argument of Domain.size')
+    return bad
 
 
 def check_sort_and_load(ctx):
